@@ -258,7 +258,8 @@ Definition doc_text (n : nat) (labels : list string) (es : list entry) : string 
   taxa_text n labels (nl ++ "BEGIN TREES;" ++ nl ++ lines_text es ("END;" ++ nl)).
 
 Definition doc_state (n : nat) (labels : list string) (es : list entry) : nexus_st :=
-  mkNS (Z.of_nat n) (Some labels) (Some (map entry_name es, map entry_body es)) None None "*"%char "-"%char.
+  mkNS (Z.of_nat n) (Some labels) (Some (map entry_name es, map entry_body es)) None None "*"%char "-"%char
+       (map (fun _ => None) (map entry_name es)).
 
 Lemma sc_nl0 : scan_iw nl = (ENDOFLINE, "", "").
 Proof. reflexivity. Qed.
@@ -283,8 +284,8 @@ Section Doc.
                  Ret (mkTS (map entry_name es) (map entry_body es) None) None nl).
     { fuel1 fuel. cbn [parse_trees]. rewrite sc_nl. tk.
       rewrite parse_trees_spec; [reflexivity|exact HE|unfold taxa_text in *; len]. }
-    cbn [ns_table nexus0 ns_taxantax ns_taxlabels ns_trees ns_data ns_missing ns_gap] in *.
-    rewrite PT. tk. cbn [tnames tstrings ttable].
+    cbn [ns_table nexus0 ns_taxantax ns_taxlabels ns_trees ns_data ns_missing ns_gap ns_tabs] in *.
+    rewrite PT. tk. cbn [tnames tstrings ttable app].
     fuel1 fuel. cbn [main_loop]. rewrite sc_nl0. tk.
     fuel1 fuel. cbn [main_loop]. rewrite sc_eof. tk. reflexivity.
   Qed.
